@@ -348,3 +348,97 @@ def check_population_size(ctx, rule):
         not [e for e in ps[0].events if e[0] == "assert"]
     ctx.check(ok, rule, "Population::size=into_iter().len()", short(ps[0].ret, 4) if ps else "-", f.at(),
               bad_detail="Population::size must be the exact length of the collection ((&self).into_iter().len()); extracted " + "; ".join(short(p.ret, 6) for p in ps))
+
+
+def shadowing_audit(ctx, rule, trait_prefixes, label="inherent-method-shadows-trait-method"):
+    """Method-call syntax prefers an inherent method to a trait method of the same name: adding `impl X { fn m(&self) }`
+    silently re-routes every `x.m()` that used to reach `<X as T>::m` - in code whose text has not changed.  For every
+    workspace type X that implements a trait T under one of `trait_prefixes` (hand-written, derived or provided method
+    alike), an inherent method of X named like a method of T must be the same computation as the trait method it hides
+    (equal canonical summary); anything else is reported.  Returns the number of (type, trait) pairs looked at."""
+    F = ctx.F
+    names = {}
+    looked = 0
+    for im in F.impls:
+        tr = im.get("trait")
+        if not tr or not any(tr.startswith(px) for px in trait_prefixes):
+            continue
+        sp = im["self"].get("path")
+        if not sp or sp not in F.adts:
+            continue
+        looked += 1
+        own = {it["name"]: (it.get("path") or it.get("id")) for it in im["items"] if it.get("kind") == "AssocFn"}
+        t = F.traits.get(tr)
+        allm = dict.fromkeys([it["name"] for it in t["items"] if it["kind"] == "AssocFn"], None) if t else {}
+        if t:
+            for it in t["items"]:
+                if it["kind"] == "AssocFn":
+                    allm[it["name"]] = it.get("path")          # the provided body, if the impl does not override it
+        allm.update(own)
+        for n, target in allm.items():
+            names.setdefault(sp, {}).setdefault(n, (tr, target))
+    hits = 0
+    for im in F.impls:
+        if im.get("trait"):
+            continue
+        sp = im["self"].get("path")
+        for it in im["items"]:
+            if it.get("kind") != "AssocFn" or it["name"] not in names.get(sp, {}):
+                continue
+            tr, target = names[sp][it["name"]]
+            g = F.fns.get(it.get("path") or it.get("id") or "")
+            h = F.fns.get(target or "")
+            same = False
+            if g is not None and h is not None:
+                try:
+                    from .canonsum import Summariser
+                    S = Summariser(F)
+                    a, b = S.of(g), S.of(h)
+                    same = a == b and isinstance(a[1], frozenset)
+                except Exception:
+                    same = False
+            hits += 1
+            ctx.check(same, rule, "%s/%s::%s" % (label, sp.rsplit("::", 1)[-1], it["name"]), "equal to <%s as %s>::%s" % (sp.rsplit("::", 1)[-1], tr.rsplit("::", 1)[-1], it["name"]),
+                      g.at() if g is not None else None,
+                      bad_detail="inherent method %s::%s hides the method of the same name of %s, which this type implements: every `x.%s()` in unchanged code now calls it, and it is not the same computation" % (
+                          sp, it["name"], tr, it["name"]))
+    ctx.ok(rule, label + "/inventory", "%d trait impls of workspace types looked at, %d inherent method(s) of the same name as a trait method" % (looked, hits), nontrivial=False)
+    return looked
+
+
+def override_audit(ctx, rule, trait_paths, label="override-of-provided-method"):
+    """A provided (default) method of a workspace trait is what every rule about that method has analysed; an impl that
+    overrides it for one type replaces it there without touching the analysed body.  Every such override must be the same
+    computation as the provided body (equal canonical summary).  Returns the number of provided methods covered."""
+    F = ctx.F
+    n = 0
+    for tp in trait_paths:
+        t = F.traits.get(tp)
+        if t is None:
+            ctx.bad(rule, label + "/trait-missing/" + tp, "trait not found in the facts: " + tp)
+            continue
+        provided = {it["name"]: it.get("path") for it in t["items"] if it["kind"] == "AssocFn" and it.get("has_default")}
+        n += len(provided)
+        for im in F.impls:
+            if im.get("trait") != tp:
+                continue
+            for it in im["items"]:
+                if it.get("kind") != "AssocFn" or it["name"] not in provided:
+                    continue
+                g = F.fns.get(it.get("path") or it.get("id") or "")
+                h = F.fns.get(provided[it["name"]] or "")
+                same = False
+                if g is not None and h is not None:
+                    try:
+                        from .canonsum import Summariser
+                        S = Summariser(F)
+                        a, b = S.of(g), S.of(h)
+                        same = a == b and isinstance(a[1], frozenset)
+                    except Exception:
+                        same = False
+                ctx.check(same, rule, "%s/%s::%s-for-%s" % (label, tp.rsplit("::", 1)[-1], it["name"], (im["self"].get("s") or "?")[:60].replace(" ", "")),
+                          "equal to the provided body", g.at() if g is not None else im["span"]["at"],
+                          bad_detail="%s overrides the provided method %s::%s, and not with the same computation: callers of that method on this type no longer run the body the rules analysed" % (
+                              im["self"].get("s"), tp, it["name"]))
+    ctx.ok(rule, label + "/inventory", "%d provided method(s) of %s: no impl replaces one with a different computation" % (n, ", ".join(x.rsplit("::", 1)[-1] for x in trait_paths)), nontrivial=False)
+    return n
